@@ -14,8 +14,40 @@ from .. import pauli as PL
 LEVEL = "model_checking"
 BOUND = 4  # |Re c|, |Im c| <= BOUND for every symbolic coefficient (stated bound)
 TOL1 = 4e-8  # single operation: at most one dropped (<= 1e-8) sum per string
-TOLP = 1e-6  # powers: drops compound through repeated products
-REPLAY_TOL1, REPLAY_TOLP = 2e-8, 5e-7
+REPLAY_TOL1 = 2e-8
+
+
+def pow_tolerance(spec, k):
+    """Sound bound on | computed(A**k) - den(A)**k | per Pauli string. The library simplifies after EVERY product and drops
+    each string whose summed coefficient is <= 1e-8 (isclose to 0); later products multiply such a drop by the other
+    coefficients, so the deviation compounds with the l1-norm S of A's coefficient vector. With E_j the l1 error of the
+    computed A**j, m the number of distinct strings and the library's recursion (odd: A * A**(j-1); even: square of
+    A**(j/2)):  E_0 = 0,  E_j = S*E_(j-1) + m*eps  (odd),  E_j = 2*S**(j/2)*E_(j/2) + E_(j/2)**2 + m*eps  (even).
+    S is taken at the stated coefficient bound (|part| <= BOUND), so the bound holds for every value the solver may pick.
+    (The first version used a fixed 1e-6: the thorough tier found (r5*X0Y1 + 0.5*Z1 + r6)**4 with r5 = -7.45e-9, r6 = -3.5,
+    where dropping the r5 term in A * identity costs 4*r5*r6**3 = 1.3e-6 - the library's tolerance at work, not a defect.)"""
+    terms = spec[1] if spec[0] == "sum" else [[spec[1], spec[2]]]
+    S, qubits = 0.0, set()
+    for ops, c in terms:
+        qubits |= set(ops)
+        if isinstance(c, str):
+            S += BOUND * (2**0.5 if c[0] == "c" else 1.0)
+        elif isinstance(c, list):
+            S += abs(complex(*c))
+        else:
+            S += abs(c)
+    m = 4 ** max(1, len(qubits))
+    eps = 1e-8
+
+    def E(j):
+        if j == 0:
+            return 0.0
+        if j % 2 == 1:
+            return S * E(j - 1) + m * eps
+        h = E(j // 2)
+        return 2 * S ** (j // 2) * h + h * h + m * eps
+
+    return max(4e-8, 2 * E(k))
 
 
 def _patched():
@@ -175,7 +207,7 @@ def _w_arith(res, p):
             raise ST.Inconclusive("NaN poison: a symbolic value was concretised silently")
         cmR = PL.cmap_of(R)
         exp = expected_cm(op, cmA, cmB, (complex(*p["B"][1]) if isinstance(p["B"][1], list) else p["B"][1]) if op == "/" else None)
-        tol = TOLP if op.startswith("**") else TOL1
+        tol = pow_tolerance(p["A"], int(op[2:])) if op.startswith("**") else TOL1
         claims = []
         for k in sorted(set(cmR) | set(exp), key=lambda kk: sorted(kk)):
             claims.append(_within(cmR.get(k, 0) - exp.get(k, 0), tol))
@@ -449,7 +481,7 @@ def run(ctx):
         "term_x_term": "every ordered pair of Pauli strings on <= %d qubits (plus gapped strings), both coefficients symbolic complex" % (2 if ctx.tier == "quick" else 3),
         "sums": "operands: 8 sums (empty, duplicates, zero coefficient, cancelling pair, constants; <= 3 terms) and 4 terms, symbolic complex/real coefficients; + - * between all sampled pairs, scalars {2.5,-3,1+2j,0.5j,0} on either side, / by scalars, simplify, powers 0..%d" % (3 if ctx.tier == "quick" else 4),
         "coefficients": f"|Re c|, |Im c| <= {BOUND}",
-        "tolerance": f"{TOL1} per Pauli string for one operation (simplify may drop one sum <= 1e-8), {TOLP} for powers",
+        "tolerance": f"{TOL1} per Pauli string for one operation (simplify may drop one sum <= 1e-8); for powers the compounded bound pow_tolerance(A, k) derived from the library's drop-after-every-product rule and the coefficient bound",
     }
     ctx.assume(
         "floats are modelled as exact reals: rounding of Python complex multiplication is outside the claim",
@@ -510,7 +542,7 @@ def replay(data):
         exp = expected_cm(op, cmA, cmB, (complex(*inp["B"][1]) if isinstance(inp["B"][1], list) else inp["B"][1]) if op == "/" else None)
         cmR = PL.cmap_of(R)
         dist = max([abs(complex(cmR.get(k, 0)) - complex(exp.get(k, 0))) for k in set(cmR) | set(exp)] or [0.0])
-        tol = REPLAY_TOLP if op.startswith("**") else REPLAY_TOL1
+        tol = pow_tolerance(inp["A"], int(op[2:])) / 2 if op.startswith("**") else REPLAY_TOL1
         return bool(dist > tol), f"max coefficient difference {dist:.3g} (tolerance {tol}) at {vals}"
     except Exception:
         import traceback
